@@ -53,6 +53,9 @@ LEAVES = [
     dict(p="LInfProj", eps=0.5), dict(p="LInfProj", eps=1.0, bias=True),
     dict(p="L1Proj", eps=1.0), dict(p="L1Proj", eps=0.5),
     dict(p="Box", lo=-0.5, hi=1.0), dict(p="Box", arr=True),
+    dict(p="Box", lo=0.0, hi=float("inf")),        # non-negativity
+    dict(p="Box", lo=-float("inf"), hi=0.5),       # one-sided from above
+    dict(p="Box", lo=0.0, hi=1e12),                # an asymmetric box whose far bound is never active
 ]
 
 
@@ -344,7 +347,7 @@ def run_case(case, seed):
                                      detail="input shape %s, output shape %s (y=%s)" % (sh, list(np.asarray(x).shape), list(pt))))
                 continue
             v = (y0 - x) / alpha
-            d = Gc.defect(np.asarray(x), v)
+            d = Gc.defect(np.asarray(x), v) if np.all(np.isfinite(np.asarray(x))) else float("inf")
             if not d <= TOL:
                 if ("cert", site) not in seen:
                     seen.add(("cert", site))
